@@ -58,8 +58,11 @@ a("DeclCE",
 a("PI_CE", "%(Name)s(?:%(PI_Tail)s)?")
 a("EndTagCE", "%(Name)s(?:%(S)s)?>?")
 a("AttValSE", r"\"[^\"]*\"|'[^']*'|[^\s=<>`]+")
+# An attribute name is what HTML allows (``[value]``, ``(click)``, ``#ref``,
+# ``*ngIf``), not just an XML name; a dollar sign starts an interpolation.
+a("AttName", "[^\\s\"'<>/=`$]+")
 a("ElemTagCE",
-  "(%(Name)s)(?:(%(S)s)(%(Name)s)(((?:%(S)s)?=(?:%(S)s)?)"
+  "(%(Name)s)(?:(%(S)s)(%(AttName)s)(((?:%(S)s)?=(?:%(S)s)?)"
   "(?:%(AttValSE)s|%(Simple)s)|(?!(?:%(S)s)?=)))*(?:%(S)s)?(/?>)?")
 a("MarkupSPE",
   "<(?:!(?:%(DeclCE)s)?|"
